@@ -342,3 +342,183 @@ Section Body.
       apply (Hcall f xs ys r Fxs Fys); [congruence | rewrite Lxs; exact HZ | exact H].
   Qed.
 End Body.
+
+(* ---------- the decorator ---------- *)
+Definition envR (e : fenv) : venv := map (fun kv => (fst kv, map f2r (snd kv))) e.
+Definition vec_n (n : nat) (v : list pfloat) : Prop := all_fin v /\ length v = n.
+Definition env_ok (n : nat) (e : fenv) : Prop := Forall (fun kv => vec_n n (snd kv)) e.
+
+Lemma vlookup_envR p e : vlookup p (envR e) = option_map (map f2r) (flookup p e).
+Proof.
+  induction e as [|[k v] e IH]; cbn [envR map vlookup flookup fst snd option_map]; [reflexivity|].
+  destruct (String.eqb p k); [reflexivity | exact IH].
+Qed.
+
+Lemma vset_envR p v e : vset p (map f2r v) (envR e) = envR (fset p v e).
+Proof.
+  induction e as [|[k w] e IH]; cbn [envR map vset fset fst snd]; [reflexivity|].
+  destruct (String.eqb p k); cbn [map fst snd]; [reflexivity|]. f_equal. exact IH.
+Qed.
+
+Lemma vlookups_envR ps e : vlookups ps (envR e) = option_map (map (map f2r)) (flookups ps e).
+Proof.
+  induction ps as [|p ps IH]; cbn [vlookups flookups option_map map]; [reflexivity|].
+  rewrite vlookup_envR, IH. destruct (flookup p e) as [v|]; cbn [option_map]; [|reflexivity].
+  destruct (flookups ps e) as [vs|]; reflexivity.
+Qed.
+
+Lemma flookup_ok n p e v : env_ok n e -> flookup p e = Some v -> vec_n n v.
+Proof.
+  induction 1 as [|[k w] e Hk He IH]; cbn [flookup]; [discriminate|].
+  destruct (String.eqb p k); [intros [= <-]; exact Hk | exact IH].
+Qed.
+
+Lemma fset_ok n p v e : env_ok n e -> vec_n n v -> env_ok n (fset p v e).
+Proof.
+  intros He Hv. induction He as [|[k w] e Hk He IH]; cbn [fset]; [constructor|].
+  destruct (String.eqb p k); constructor; auto.
+Qed.
+
+Lemma flookups_ok n ps e : env_ok n e -> forall vs, flookups ps e = Some vs -> Forall (vec_n n) vs.
+Proof.
+  intros He. induction ps as [|p ps IH]; cbn [flookups]; intros vs.
+  - intros [= <-]. constructor.
+  - destruct (flookup p e) as [v|] eqn:Ev; [|discriminate]. destruct (flookups ps e) as [ws|]; [|discriminate].
+    intros [= <-]. constructor; [exact (flookup_ok n p e v He Ev) | now apply IH].
+Qed.
+
+Lemma fin_add_fin_r (a e : pfloat) : ffin a = true -> ffin (a + e)%float = true -> ffin e = true.
+Proof.
+  rewrite !ffin_Prim2B, FP.add_equiv. intros Fa Fz.
+  destruct (FP.Prim2B e) as [s|s| |s m x B]; try reflexivity;
+    destruct (FP.Prim2B a) as [s'|s'| |s' m' x' B']; discriminate.
+Qed.
+
+Lemma add_constF_ok c v v' : all_fin v -> add_constF true c v = Some v' ->
+  all_fin v' /\ length v' = length v /\ map f2r v' = add_constRs cvalD rnd64 c (map f2r v).
+Proof.
+  unfold add_constF, add_constRs, cvalD. destruct (cvalF c) as [e|]; [|discriminate]. intros Fv. revert v'.
+  induction Fv as [|a v Fa Fv IH]; intros v'; cbn [map oseq].
+  - intros [= <-]. repeat split. constructor.
+  - destruct (ret true (a + e)%float) as [r|] eqn:Er; [|discriminate].
+    destruct (oseq (map (fun a0 => ret true (a0 + e)%float) v)) as [t|] eqn:Et; [|discriminate].
+    intros [= <-]. apply ret_true in Er. destruct Er as [-> F]. destruct (IH t eq_refl) as [Ft [Lt Et']].
+    split; [constructor; assumption|]. split; [cbn [length]; now rewrite Lt|].
+    cbn [map]. rewrite Et'. f_equal. apply fadd_ok; [exact Fa | exact (fin_add_fin_r a e Fa F) | exact F].
+Qed.
+
+Lemma dec_runF_ok n prog : forall e vs, env_ok n e -> dec_runF true prog e = Some vs ->
+  Forall (vec_n n) vs /\ dec_runRs cvalD rnd64 prog (envR e) = Some (map (map f2r) vs).
+Proof.
+  induction prog as [|st prog IH]; intros e vs He; cbn [dec_runF dec_runRs]; [discriminate|].
+  destruct st as [p c|p c|ps].
+  - rewrite vlookup_envR. destruct (flookup p e) as [v|] eqn:Ev; [|discriminate]. cbn [option_map].
+    destruct (flookup_ok n p e v He Ev) as [Fv Lv].
+    destruct (add_constF true c v) as [v'|] eqn:Ea; [|discriminate].
+    destruct (add_constF_ok c v v' Fv Ea) as [Fv' [Lv' Ev']]. rewrite <- Ev', vset_envR.
+    apply IH. apply fset_ok; [exact He | split; [exact Fv' | congruence]].
+  - rewrite vlookup_envR. destruct (flookup p e) as [v|] eqn:Ev; [|discriminate]. cbn [option_map].
+    destruct (flookup_ok n p e v He Ev) as [Fv Lv].
+    destruct (add_constF true c v) as [v'|] eqn:Ea; [|discriminate].
+    destruct (add_constF_ok c v v' Fv Ea) as [Fv' [Lv' Ev']]. rewrite <- Ev', vset_envR.
+    apply IH. apply fset_ok; [exact He | split; [exact Fv' | congruence]].
+  - intros H. rewrite vlookups_envR, H. split; [exact (flookups_ok n ps e He vs H) | reflexivity].
+Qed.
+
+Lemma envR_combine ps (args : list (list pfloat)) : envR (combine ps args) = combine ps (map (map f2r) args).
+Proof.
+  revert args; induction ps as [|p ps IH]; intros [|v args]; cbn [combine envR map fst snd]; try reflexivity.
+  f_equal. exact (IH args).
+Qed.
+
+Lemma env_ok_combine n ps args : Forall (vec_n n) args -> env_ok n (combine ps args).
+Proof.
+  intros H. revert ps. induction H as [|v args Hv Ha IH]; intros [|p ps]; cbn [combine]; try (constructor; fail).
+  constructor; [exact Hv | apply IH].
+Qed.
+
+Lemma dec_applyF_ok n dp dprog args vs : Forall (vec_n n) args -> dec_applyF true dp dprog args = Some vs ->
+  Forall (vec_n n) vs /\ dec_applyRs cvalD rnd64 dp dprog (map (map f2r) args) = Some (map (map f2r) vs).
+Proof.
+  intros Ha H. unfold dec_applyF in H. unfold dec_applyRs. rewrite <- envR_combine.
+  apply (dec_runF_ok n); [now apply env_ok_combine | exact H].
+Qed.
+
+(* ---------- a whole metric ---------- *)
+Lemma param_defaultF_ok ps p f : lits_exact = true -> param_defaultF ps p = Some f -> param_default ps p = f2r f.
+Proof.
+  intros HL. induction ps as [|[k d] ps IH]; cbn [param_defaultF param_default]; [discriminate|].
+  destruct (String.eqb p k); [|exact IH]. destruct d as [q|]; [|discriminate].
+  intros H. destruct (litF_ok q f HL H) as [_ E]. now rewrite E.
+Qed.
+
+Section Wrap.
+  Variables (dp : list string) (dprog : list dstmt).
+  Hypothesis Hlits : lits_exact = true.
+
+  Lemma wrapF_ok callF callR m x y r :
+    (forall f xs ys r, all_fin xs -> all_fin ys -> length xs = length ys -> Zlen_ok xs ->
+       callF f xs ys = Some r -> ffin r = true /\ callR f (map f2r xs) (map f2r ys) = Some (f2r r)) ->
+    consts_exactS (m_body m) = true ->
+    all_fin x -> all_fin y -> length x = length y -> Zlen_ok x ->
+    wrapF true callF dp dprog (param_defaultF (m_params m)) m x y = Some r ->
+    ffin r = true /\ wrapRs cvalD rnd64 callR dp dprog (param_default (m_params m)) m (map f2r x) (map f2r y) = Some (f2r r).
+  Proof.
+    intros Hcall HC Fx Fy HL HZ. unfold wrapF, wrapRs, eval_bodyF, eval_bodyR.
+    assert (B : forall x' y' r', all_fin x' -> all_fin y' -> length x' = length y' -> Zlen_ok x' ->
+              evalSF true callF (param_defaultF (m_params m)) (m_njit m) (m_body m) x' y' = Some r' ->
+              ffin r' = true /\ evalSR rnd64 callR (param_default (m_params m)) (m_body m) (map f2r x') (map f2r y') = Some (f2r r')).
+    { intros x' y' r' Fx' Fy' HL' HZ' H.
+      refine (proj2 (body_ok callF callR (param_defaultF (m_params m)) (param_default (m_params m)) (m_njit m) Hcall _ Hlits)
+                (m_body m) x' y' r' Fx' Fy' HL' HZ' HC H).
+      intros p f Hp _. now apply param_defaultF_ok. }
+    destruct (m_avoid_zero m); [|now apply B].
+    destruct (dec_applyF true dp dprog [x; y]) as [vs|] eqn:Ed; [|discriminate].
+    destruct (dec_applyF_ok (length x) dp dprog [x; y] vs) as [Fvs Evs]; [|exact Ed|].
+    { constructor; [split; [exact Fx | reflexivity]|]. constructor; [split; [exact Fy | now symmetry]|]. constructor. }
+    cbn [map] in Evs. rewrite Evs.
+    destruct vs as [|x' [|y' [|z vs]]]; try discriminate. cbn [map].
+    inversion Fvs as [|? ? [Fx' Lx'] Fvs']; subst. inversion Fvs' as [|? ? [Fy' Ly'] _]; subst.
+    intros H. apply B; auto; [congruence | now rewrite Lx'].
+  Qed.
+
+  Lemma call_fuelF_ok t : table_consts_exact t = true -> forall fuel f xs ys r,
+    all_fin xs -> all_fin ys -> length xs = length ys -> Zlen_ok xs ->
+    call_fuelF true t dp dprog fuel f xs ys = Some r ->
+    ffin r = true /\ call_fuelRs cvalD rnd64 t dp dprog fuel f (map f2r xs) (map f2r ys) = Some (f2r r).
+  Proof.
+    intros Ht. induction fuel as [|n IH]; intros f xs ys r Fx Fy HL HZ; cbn [call_fuelF call_fuelRs]; [discriminate|].
+    destruct (lookup_ir f t) as [m|] eqn:Em; [|discriminate].
+    apply wrapF_ok; auto.
+    clear - Ht Em. unfold table_consts_exact in Ht. induction t as [|[k m'] t IHt]; cbn [lookup_ir] in Em; [discriminate|].
+    cbn [forallb snd] in Ht. apply andb_prop in Ht. destruct Ht as [H1 H2].
+    destruct (String.eqb f k); [injection Em as <-; exact H1 | now apply IHt].
+  Qed.
+End Wrap.
+
+(* ---------- at the generated tables ---------- *)
+Lemma lits_exact_gen : lits_exact = true.
+Proof. vm_compute. reflexivity. Qed.
+
+Lemma table_consts_exact_gen : table_consts_exact all_metrics_ir = true.
+Proof. vm_compute. reflexivity. Qed.
+
+Theorem metric_fltc_refines m x y f :
+  consts_exactS (m_body m) = true ->
+  all_fin x -> all_fin y -> length x = length y -> Zlen_ok x ->
+  metric_fltc m x y = Some f ->
+  ffin f = true /\ metric_rnd_shift cvalD rnd64 m (map f2r x) (map f2r y) = Some (f2r f).
+Proof.
+  intros HC Fx Fy HL HZ H. unfold metric_fltc, evalFlt_wrapped in H. unfold metric_rnd_shift, evalRnd_wrapped_shift.
+  apply (wrapF_ok decorator_params decorator_body lits_exact_gen
+           (call_fuelF true all_metrics_ir decorator_params decorator_body call_depth)
+           (call_fuelRs cvalD rnd64 all_metrics_ir decorator_params decorator_body call_depth) m x y f); auto.
+  intros g xs ys r. apply (call_fuelF_ok decorator_params decorator_body lits_exact_gen all_metrics_ir table_consts_exact_gen).
+Qed.
+
+(* every table entry qualifies *)
+Lemma table_member_consts m : In m (map snd all_metrics_ir) -> consts_exactS (m_body m) = true.
+Proof.
+  intros H. apply in_map_iff in H. destruct H as [[k m'] [<- Hin]].
+  pose proof table_consts_exact_gen as Ht. unfold table_consts_exact in Ht. rewrite forallb_forall in Ht. exact (Ht _ Hin).
+Qed.
